@@ -462,6 +462,25 @@ def plain_cases():
     cases.append(('group-then-pipe', Pipe(Group([T]), ('0', 'a')), [{'a': 1}], 1))
     cases.append(('group-auto-leaf', Group([Auto('a')]), [{'a': 1}, {'a': 2}], [1, 2]))
     cases.append(('group-auto-leaf-then', (Group([Auto('a')]), [lambda x: x + 1]), [{'a': 1}, {'a': 2}], [2, 3]))
+    # Switch with plain constants as key specs: what a constant key MEANS depends on the mode in force at the Switch
+    keys_by_mode = {'auto': ['a', 'b'], 'fill': ['a', 'b', 1, None, True], 'match': ['a', 'b', 1, None, True]}
+    sw_targets = ['a', 'b', 1, None, True, {'a': 'x'}, {'b': 'y'}, 2.5]
+    for mode, keys in keys_by_mode.items():
+        for k1, k2 in itertools.product(keys, repeat=2):
+            if k1 == k2 and type(k1) is type(k2):
+                continue
+            for tg in sw_targets:
+                sw = Switch([(k1, Val('case0')), (k2, Val('case1'))])
+                spec = sw if mode == 'auto' else Fill(sw) if mode == 'fill' else Match(sw)
+                if mode == 'fill':
+                    want = 'case0'              # a constant is a literal: evaluating it never fails
+                elif mode == 'match':
+                    hit = [i for i, k in enumerate((k1, k2)) if tg == k]
+                    want = 'case%d' % hit[0] if hit else MatchError
+                else:
+                    hit = [i for i, k in enumerate((k1, k2)) if isinstance(tg, dict) and k in tg]
+                    want = 'case%d' % hit[0] if hit else MatchError
+                cases.append(('switch-constant-keys-%s-%r-%r-on-%r' % (mode, k1, k2, tg), spec, tg, want))
     cases.append(('and-or-siblings', And(Fill(T), 'a'), t, 1))
     cases.append(('or-siblings', Or(Match(int), 'a'), t, 1))
     return cases
